@@ -302,7 +302,9 @@ class KindInferenceMapper(Mapper):
         self.check = check
 
     def map_constant(self, expr):
-        if isinstance(expr, complex):
+        if isinstance(expr, bool):
+            return Boolean()
+        elif isinstance(expr, complex):
             return Scalar(is_real_valued=False)
         else:
             return Scalar(is_real_valued=True)
